@@ -80,7 +80,7 @@ PROPS = {
         trusted=CODEC_TRUST,
     ),
     "C20": dict(
-        domains=[("codec", "find", 8000, 120000)],
+        domains=[("codec", "find", 8000, 120000), ("codec", "findn", 2000, 30000)],
         relevant=["C20:"],
         theorems=['DV.Props.C20.C20_all', 'DV.Props.C20.C20_first', 'DV.Props.C20.C20_first_sound', 'DV.Props.C20.C20_all_sound', 'DV.Props.C20.C20_path', 'DV.Props.C20.C20_gen'],
         gen_obligations=['Gen.GroupedAVPType'],
